@@ -432,8 +432,33 @@ func checkProbeForwarders(r *core.Result, prog *core.Program, pk *packages.Packa
 			}
 		}
 		pi := 0
+		// Unmarshal: the runtimes' Unmarshal resets the destination first (proto.Unmarshal = Reset + merge), while
+		// the hooks reached by the "own" and "v1x" probes (Unmarshal / XXX_Unmarshal methods generated by gogo or
+		// golang/protobuf) merge. A Reset of msg must therefore come before those probes return.
+		resetPos := token.NoPos
+		if name == "Unmarshal" {
+			ast.Inspect(f.Decl.Body, func(n ast.Node) bool {
+				c, ok := n.(*ast.CallExpr)
+				if !ok || resetPos.IsValid() {
+					return true
+				}
+				if se, ok := c.Fun.(*ast.SelectorExpr); ok && se.Sel.Name == "Reset" && len(c.Args) == 0 {
+					resetPos = c.Pos()
+				}
+				if fn := staticCallee(info, c); fn != nil && fn.Name() == "Reset" && fn.Pkg() == pk.Types && len(c.Args) == 1 {
+					resetPos = c.Pos()
+				}
+				return true
+			})
+		}
 		for i, st := range body {
 			is, isIf := st.(*ast.IfStmt)
+			if isIf && name == "Unmarshal" {
+				// the reset statement itself: if r, ok := msg.(interface{ Reset() }); ok { r.Reset() }
+				if resetPos.IsValid() && is.Pos() <= resetPos && resetPos < is.End() && !returnsAnything(is.Body.List) {
+					continue
+				}
+			}
 			if !isIf {
 				// only the final fall-back return may stand outside the probes
 				ret, isRet := st.(*ast.ReturnStmt)
@@ -538,6 +563,10 @@ func checkProbeForwarders(r *core.Result, prog *core.Program, pk *packages.Packa
 				return true
 			})
 			r.Ob("D9", armName+" returns "+want+" of the asserted value", prog.Pos(is.Pos()), okRets && nRet == 1, strings.Join(why, "; ")+fmt.Sprintf(" (%d returns)", nRet))
+			if name == "Unmarshal" && (cat == "own" || cat == "v1x") {
+				r.Ob("D9", armName+" decodes into a reset destination", prog.Pos(is.Pos()), resetPos.IsValid() && resetPos < is.Body.Pos()+1 || (resetPos.IsValid() && resetPos > is.Pos() && resetPos < is.End()),
+					"the "+want+" hook merges into the destination, the owning runtime's Unmarshal resets it first: fields that are absent from the input keep their old values (csproto.Unmarshal(b, &Api{Version: \"old\"}) keeps Version)")
+			}
 			// a buffer handed to an appending marshal function must be empty
 			ast.Inspect(is.Body, func(n ast.Node) bool {
 				c, ok := n.(*ast.CallExpr)
@@ -553,4 +582,17 @@ func checkProbeForwarders(r *core.Result, prog *core.Program, pk *packages.Packa
 			})
 		}
 	}
+}
+
+func returnsAnything(list []ast.Stmt) bool {
+	found := false
+	for _, st := range list {
+		ast.Inspect(st, func(n ast.Node) bool {
+			if _, ok := n.(*ast.ReturnStmt); ok {
+				found = true
+			}
+			return true
+		})
+	}
+	return found
 }
